@@ -184,6 +184,12 @@ def rule_kernel(ck):
         elif c >= 0:
             probs.append('tolerance term %s enters the denominator with coefficient %s (must be negative): the '
                          'quotient of a value on an edge can round below the edge index' % (sym.show_atom(a), c))
+        elif a[0] == 'call' and a[1] == TOL and a[2] and a[2][0] not in (N.nf('bins[0]'), N.nf('bins[1]'), N.nf('bins')):
+            # h = bins[1] - bins[0] inherits the representation error of the two edges, up to eps*|bins[0]|, whatever the size of h
+            probs.append('the allowance subtracted from the spacing is the round-off of `%s`, not of an edge: the computed spacing '
+                         'bins[1]-bins[0] is wrong by up to eps*|bins[0]| (the representation error of the edges), which is far more than '
+                         'eps*|spacing| when the first edge is large compared with the spacing; k steps away from the first edge the '
+                         'quotient of a value on an edge falls below k' % sym.show(a[2][0]))
         else:
             ntol += 1
     if const != 0 or other:
@@ -220,7 +226,8 @@ def rule_tolerance(ck):
             continue
         st = p.single_term()
         ok = False
-        if st is not None and st[1] > 0:
+        small = st is not None and 0 < st[1] < 1
+        if st is not None and st[1] >= 1:
             atoms = [a for a, e in st[0]]
             has_abs = any(a[0] == 'call' and a[1] == 'abs' for a in atoms)
             has_eps = any('eps' in sym.show_atom(a) and ('%s.dtype' % param) in sym.show_atom(a) for a in atoms)
@@ -232,10 +239,79 @@ def rule_tolerance(ck):
             (oo.ok('no tolerance for infinite values') if finite_guard else
              oo.fail('the tolerance of an infinite value is infinite: for v = -inf the numerator v - a0 + tol(v) is inf - inf = nan, floor(nan) '
                      'compares false with every bound and the index is garbage instead of -1 (out of range)'))
+        elif small:
+            # worst case at edge k with tolerance c*eps*|v| on p, bins[0] and the spacing: the slack (2c-1)*u*(|p|+|a0|) of the numerator
+            # must cover the k-fold error 2*k*u*|a0|*(1-c) of the spacing (u = eps/2); for c < 1 that fails from some k on
+            o.fail('tolerance `%s` scales |v|*eps by %s < 1: the spacing bins[1]-bins[0] carries up to eps*|bins[0]| of representation error, '
+                   'k steps from the first edge that error is multiplied by k, and an allowance below one full eps*|v| per involved number no '
+                   'longer covers it - a value equal to edge k falls into bin k-1 (e.g. edges 4.05 + 0.1*k, value 5.35)' % (sym.show(p), st[1]))
         else:
             o.fail('tolerance `%s` is not |v|*eps(v.dtype) with a positive coefficient: it can be negative, or is not scaled by the machine '
                    'epsilon of the value\'s own dtype (a float32 value carries float32 round-off), so a value on an edge can fall '
                    'into the bin below' % sym.show(p))
+
+
+def rule_tolerance_flow(ck):
+    """the binning tolerance is the round-off of the value's own dtype unless the *user* overrides it: every parameter that is
+    forwarded to bin1d_vec's `tol` defaults to None, and no call inside the package fixes a tolerance of its own"""
+    P = ck.prog
+    ck.clause('D2')
+    K = 'csep.utils.calc.bin1d_vec'
+    T = {K: 'tol'}                       # function -> name of its parameter that ends up as bin1d_vec's tol
+
+    def sites(q):
+        """[(caller, call)] of q: resolved calls, and method calls by the (package-unique) method name"""
+        short = q.split('.')[-1]
+        same = [x for x in P.funcs if x.split('.')[-1] == short]
+        out = []
+        for g in P.funcs.values():
+            for c in all_nodes(g):
+                if not isinstance(c, ast.Call):
+                    continue
+                tgt = callee(P, g, c)
+                if tgt == q:
+                    out.append((g, c))
+                elif tgt not in P.funcs and isinstance(c.func, ast.Attribute) and c.func.attr == short and all(x in T or x == q for x in same):
+                    out.append((g, c))
+        return out
+
+    def tol_arg(q, c):
+        fn = P.funcs[q]
+        m, ok = bind_args(fn, c, bound_method=(fn.cls is not None and isinstance(c.func, ast.Attribute)))
+        if not ok:
+            return NotImplemented
+        a = m.get(T[q])
+        # only an argument written at the call counts (not the callee's default)
+        return a if any(a is x for x in list(c.args) + [k.value for k in c.keywords]) else None
+    changed = True
+    while changed:
+        changed = False
+        for q in list(T):
+            for g, c in sites(q):
+                a = tol_arg(q, c)
+                if isinstance(a, ast.Name) and a.id in g.params and g.qualname not in T and g.qualname in P.funcs:
+                    T[g.qualname] = a.id
+                    changed = True
+    for q in sorted(T):
+        fn = P.funcs[q]
+        d = fn.defaults().get(T[q])
+        o = ck.ob('C02-D2.toldefault', fn, '%s=%s' % (T[q], u(d) if d is not None else '<required>'), fn.node)
+        (o.ok('default None: derived from the dtype of the values') if d is not None and const_value(d) is None else
+         o.fail('the binning tolerance `%s` of %s defaults to %s: bin1d_vec adds it to every value before flooring, so every value closer '
+                'than that below an edge is put into the bin above it (6.049995 with edges 5.95, 6.05, ...), and the same values binned '
+                'through another entry point land elsewhere; the default must be None (round-off of the dtype)' % (T[q], fn.short, u(d) if d is not None else 'nothing')))
+        for g, c in sites(q):
+            a = tol_arg(q, c)
+            if a is None:
+                continue
+            oo = ck.ob('C02-D2.tolarg', g, c, c)
+            if a is NotImplemented:
+                oo.unknown('cannot bind the arguments of `%s`' % u(c)[:60])
+            elif (isinstance(a, ast.Name) and T.get(g.qualname) == a.id) or const_value(a) is None:
+                oo.ok('forwards the caller\'s tolerance')
+            else:
+                oo.fail('`%s` fixes the binning tolerance to `%s` inside the package: values closer than that below an edge are counted one '
+                        'bin higher here than by every other path that bins the same values with the dtype round-off' % (u(c)[:70], u(a)))
 
 
 def strip_all_shape(e):
@@ -607,6 +683,24 @@ def rule_generators(ck):
             oo.fail('the power-of-ten scale `%s` is derived from the decimals of %s only; a step with more decimals whose reciprocal is not '
                     'an integer (start 5.0, step 0.07: scale = 1/0.07 = 14.2857) makes scale*start a non-integer, so the generated edges '
                     '(4.97, 5.04, ...) are not the decimal grid start + k*step' % (u(pows[0])[:60], sorted(names) or 'nothing'))
+    # the steps-per-unit part of the scale: 1/h, at most snapped / rounded to the nearest integer - never truncated
+    oo = ck.ob('C02-D5.scale', f, scale, rets[0])
+    trunc = []
+    for n in ast.walk(scale):
+        uses_h = any(isinstance(x, ast.Name) and x.id == h and getattr(x, '_param', False) for x in ast.walk(n))
+        if not uses_h:
+            continue
+        if isinstance(n, ast.BinOp) and isinstance(n.op, (ast.FloorDiv, ast.Mod)):
+            trunc.append(n)
+        elif isinstance(n, ast.Call) and (call_name(n) or '') in ('numpy.floor', 'numpy.ceil', 'numpy.trunc', 'builtins.int', 'math.floor', 'math.ceil',
+                                                                   'math.trunc', 'numpy.fix', 'numpy.floor_divide', 'builtins.divmod'):
+            trunc.append(n)
+        elif isinstance(n, ast.Call) and isinstance(n.func, ast.Attribute) and n.func.attr == 'astype':
+            trunc.append(n)
+    (oo.fail('the scale takes `%s`: the reciprocal of a decimal step is not an exact float (1/0.05 = 20.000000000000004, 1//0.05 = 19.0), so '
+             'truncating it loses one - the scale is 19 (49, 99), scale*h is no integer and the edges leave the decimal grid '
+             '(magnitude_bins(5.0, 9.0, 0.05) ends at 9.000000000000012); the reciprocal may only be rounded / snapped to the nearest integer'
+             % u(trunc[0])[:60]) if trunc else oo.ok('no truncation of the reciprocal step'))
     # magnitude_bins forwards (start, end, dmw) in order
     g = P.func('csep.core.regions.magnitude_bins')
     rets = [r for r in returns(g) if r.value is not None]
@@ -626,4 +720,4 @@ def rule_pure(ck):
     c03.rule_pure_gridding(ck)
 
 
-RULES = [rule_kernel, rule_tolerance, rule_range, rule_callsites, rule_generators, rule_pure]
+RULES = [rule_kernel, rule_tolerance, rule_tolerance_flow, rule_range, rule_callsites, rule_generators, rule_pure]
